@@ -6,8 +6,8 @@
 (*           kind "wls"   computechi2(b, sqivar, A): integer system, every attribute          *)
 (*                        abstracted to the nearby small rational q, with dev = the largest   *)
 (*                        |observed - q| in units of the tolerance times the natural scale    *)
-(*                        (LinSolve: THE COMPARISON RULE; the harness-measured natural scales  *)
-(*                        natx, naty must be the exact ones); ok iff dev <= 1 and the q are    *)
+(*                        (LinSolve: THE COMPARISON RULE; natural scales measured by the       *)
+(*                        harness in floating point); ok iff dev <= 1 and the q are            *)
 (*                        the exact weighted least-squares record;                            *)
 (*           kind "wlsf"  computechi2 on a float system (high signal-to-noise, noise-free):   *)
 (*                        chi2 >= 0 and equal to the weighted residual of the RETURNED yfit,   *)
@@ -30,10 +30,8 @@ WlsWhy(r) ==
   IF ~FullRank(r.A, r.s) THEN "skip"                       \* the statement speaks of full-rank systems only
   ELSE IF r.ret.err THEN "exception"
   ELSE IF ~AgreesAtNaturalScale(r.ret.dev) THEN "an attribute is further than the tolerance from any small rational"
-  ELSE LET e == ExpectedWLS(r)
-           n == NatScale(r.A, r.b, r.s) IN
-       IF r.ret.natx # n.x \/ r.ret.naty # n.y THEN "natural scale mis-measured"
-       ELSE IF r.ret.acoeff # e.acoeff THEN "acoeff"
+  ELSE LET e == ExpectedWLS(r) IN
+       IF r.ret.acoeff # e.acoeff THEN "acoeff"
        ELSE IF r.ret.yfit # e.yfit THEN "yfit"
        ELSE IF r.ret.chi2 # e.chi2 THEN "chi2"
        ELSE IF r.ret.dof # e.dof THEN "dof"
